@@ -7,6 +7,9 @@ from vlib.core import AnalysisError, Report
 from vlib.flow import enclosing_tries, handler_raises, handler_types, parent_map, raised_name
 from vlib.grammar import GrammarModel, ladder
 from vlib.nodemodel import NodeModel
+from vlib.guards import always_exits
+from vlib.match import X, atoms, closure, facts, facts_through, guarded_through, has_call, nodes
+from vlib.norm import helper_closure
 from vlib.srcindex import SourceIndex, attr_chain, const_str, unparse, walk_no_nested
 
 EXPLANATION = (
@@ -99,22 +102,35 @@ def run(rep: Report, tier: str) -> None:
 		f = c.method(fname)
 		if f is None:
 			raise AnalysisError(f'LiteralEvaluator.{fname} vanished')
-		chain, last = _chain(f)
 		branch_tokens[fname] = []
-		for tok, node in chain:
+		fx = X(f)
+		ps = f.params()[1:]
+		if len(ps) != 3:
+			raise AnalysisError(f'LiteralEvaluator.{fname} no longer takes (left, op, right)')
+		pl, po, pr_ = ps
+
+		def tok_of(node) -> tuple[str | None, list]:
+			pos = [const_str(a.comparators[0]) for a, p_ in atoms(fx, node) if p_ and isinstance(a, ast.Compare) and len(a.ops) == 1 and isinstance(a.ops[0], ast.Eq) and unparse(a.left) == po]
+			return (pos[0] if len(pos) == 1 else None), pos
+
+		for ret in nodes(fx, ast.Return):
+			e = ret.value
+			tok, pos = tok_of(ret)
+			if not pos:
+				r1.skip(f'{fname}:return@{unparse(e)[:30]}', (EVAL, ret.lineno), f'return `{unparse(e)}` is not under a single `{po} == <token>` condition')
+				continue
 			key = f'{fname}:{tok}'
 			if tok is None:
-				r1.undecided(key, (EVAL, node.lineno), f'branch test `{unparse(node.test)}` is not `op == <constant>`')
+				r1.skip(key, (EVAL, ret.lineno), f'return `{unparse(e)}` is under several operator conditions {pos}')
 				continue
 			branch_tokens[fname].append(tok)
-			ret = node.body[0] if len(node.body) == 1 and isinstance(node.body[0], ast.Return) else None
-			e = ret.value if ret is not None else None
 			want = _op_class(tok)
-			ok = isinstance(e, ast.BinOp) and type(e.op).__name__ == want and isinstance(e.left, ast.Name) and e.left.id == 'left' and isinstance(e.right, ast.Name) and e.right.id == 'right'
-			r1.check(ok, key, (EVAL, node.lineno), f'branch for `{tok}` returns `{unparse(e)}`; CPython evaluates `left {tok} right` as {want}(left, right): a different value would be folded into the output', unparse(node).split('\n')[0])
-			r1.check(tok in ops, key + ':in-list', (EVAL, node.lineno), f'{fname} has a branch for `{tok}`, which is not in its operator list {ops}')
-		is_assert_false = last is not None and len(last) == 1 and isinstance(last[0], ast.Assert) and isinstance(last[0].test, ast.Constant) and last[0].test.value is False
-		r1.check(is_assert_false, f'{fname}:else', f.where, f'{fname} must refuse unknown operators with `assert False` (converted to OperationNotAllowed); its final else is `{unparse(last[0]) if last else None}`')
+			ok = isinstance(e, ast.BinOp) and type(e.op).__name__ == want and isinstance(e.left, ast.Name) and e.left.id == pl and isinstance(e.right, ast.Name) and e.right.id == pr_
+			r1.check(ok, key, (EVAL, ret.lineno), f'branch for `{tok}` returns `{unparse(e)}`; CPython evaluates `left {tok} right` as {want}(left, right): a different value would be folded into the output', unparse(ret))
+			r1.check(tok in ops, key + ':in-list', (EVAL, ret.lineno), f'{fname} has a branch for `{tok}`, which is not in its operator list {ops}')
+		refusals = [n for n in nodes(fx, (ast.Assert, ast.Raise)) if not tok_of(n)[1] and (isinstance(n, ast.Raise) or (isinstance(n.test, ast.Constant) and n.test.value is False))]
+		falls_off = not always_exits(fx.body)
+		r1.check(bool(refusals) and not falls_off, f'{fname}:else', f.where, f'{fname} must refuse unknown operators with `assert False` (converted to OperationNotAllowed) instead of falling through (returning None)')
 
 	r2 = rep.rule('C17/routing-partition', 'operator lists partition AllowOps; true division / float operands go to _calc on float(); int,int arithmetic is re-wrapped in int(); strings only concatenate; asserts are converted', floor=8)
 	r2.check(not set(arth) & set(bitw), 'disjoint', c.where, f'ArthmeticOps and BitwiseOps overlap: {sorted(set(arth) & set(bitw))}')
@@ -126,35 +142,61 @@ def run(rep: Report, tier: str) -> None:
 	ob = c.method('_op_bin_each')
 	if ob is None:
 		raise AnalysisError('_op_bin_each vanished')
-	chain = []
-	for n in walk_no_nested(ob.node):
-		if isinstance(n, ast.If) and 'isinstance(left, float)' in unparse(n.test):
-			cur = n
-			while isinstance(cur, ast.If):
-				chain.append(cur)
-				cur = cur.orelse[0] if len(cur.orelse) == 1 and isinstance(cur.orelse[0], ast.If) else None
-			last_else = chain[-1].orelse
-	if len(chain) != 3:
-		r2.undecided('routing-chain', ob.where, f'_op_bin_each routing chain has {len(chain)} arms, expected 3 (+ else)')
-	else:
-		a0, a1, a2 = chain
-		t0 = unparse(a0.test)
-		r2.check("op == '/'" in t0 and 'isinstance(left, float)' in t0 and 'isinstance(right, float)' in t0 and isinstance(a0.test, ast.BoolOp) and isinstance(a0.test.op, ast.Or), 'float-arm-test', (EVAL, a0.lineno), f'first arm must take float operands OR true division (else int/int `/` would be truncated by int()): `{t0}`')
-		r2.check(unparse(a0.body[0]) == 'left = self._calc(float(left), op, float(right))', 'float-arm-body', (EVAL, a0.lineno), f'float arm is `{unparse(a0.body[0])}`')
-		r2.check(unparse(a1.test) == 'isinstance(left, int) and isinstance(right, int)', 'int-arm-test', (EVAL, a1.lineno), f'second arm test is `{unparse(a1.test)}`')
-		r2.check(unparse(a1.body[0]) == 'left = int(self._calc(left, op, right)) if op in LiteralEvaluator.ArthmeticOps else self._bitwise(left, op, right)', 'int-arm-body', (EVAL, a1.lineno), f'int arm is `{unparse(a1.body[0])}`')
-		t2 = unparse(a2.test)
-		r2.check('isinstance(left, str)' in t2 and 'isinstance(right, str)' in t2 and "op == '+'" in t2 and isinstance(a2.test, ast.BoolOp) and isinstance(a2.test.op, ast.And), 'str-arm-test', (EVAL, a2.lineno), f'string arm must require two strings and `+`: `{t2}`')
-		r2.check(len(last_else) == 1 and isinstance(last_else[0], ast.Assert) and unparse(last_else[0].test) == 'False', 'else-refuses', (EVAL, a2.lineno), 'every other operand combination must be refused (assert False)')
-	pm = parent_map(ob.node)
-	for n in walk_no_nested(ob.node):
-		if isinstance(n, ast.Assert) or (isinstance(n, ast.Call) and unparse(n.func) in ('self._calc', 'self._bitwise', 'self._cat')):
-			conv = False
-			for t in enclosing_tries(n, pm):
-				for h in t.handlers:
-					if 'AssertionError' in handler_types(h) and any(raised_name(x) == 'Errors.OperationNotAllowed' for x in handler_raises(h)):
-						conv = True
-			r2.check(conv, f'converted:{unparse(n)[:40]}', (EVAL, n.lineno), f'`{unparse(n)[:60]}` is not inside try..except AssertionError -> Errors.OperationNotAllowed')
+	members = helper_closure(ob, 2)
+	members = [g for g in members if g.name not in ('_calc', '_bitwise', '_cat', '_allow_string')]
+	arms: dict[str, list] = {'float': [], 'int': [], 'bitwise': [], 'cat': []}
+	for g in members:
+		gx = X(g)
+		for cl in nodes(gx, ast.Call):
+			fnm = unparse(cl.func)
+			if fnm == 'self._calc' and len(cl.args) == 3:
+				floats = [isinstance(a, ast.Call) and unparse(a.func) == 'float' for a in (cl.args[0], cl.args[2])]
+				arms['float' if all(floats) else 'int'].append((g, gx, cl))
+			elif fnm == 'self._bitwise':
+				arms['bitwise'].append((g, gx, cl))
+			elif fnm == 'self._cat':
+				arms['cat'].append((g, gx, cl))
+
+	def known(g, gx, node) -> list[tuple[str, bool]]:
+		return facts_through(ob, gx, node)
+
+	def has(fs, text_pred, pol) -> bool:
+		return any(p_ == pol and text_pred(t) for t, p_ in fs)
+
+	if not all(arms.values()):
+		r2.skip('routing-arms', ob.where, f'_op_bin_each no longer routes to _calc(float..), int(_calc(..)), _bitwise and _cat (found {[k for k, v in arms.items() if v]})')
+	for g, gx, cl in arms['float']:
+		fs = known(g, gx, cl)
+		# reached when a float operand OR true division: the disjunction is one atom
+		disj = [t for t, p_ in fs if p_ and ' or ' in t and 'float)' in t]
+		single = has(fs, lambda t: t.startswith('isinstance(') and t.endswith('float)'), True) or has(fs, lambda t: t.endswith("== '/'"), True)
+		r2.check(any("== '/'" in t and t.count('float)') >= 2 for t in disj), 'float-arm-test', (EVAL, cl.lineno), f'the float() arm must take float operands OR true division (else int/int `/` would be truncated by int()): conditions {fs}')
+	for g, gx, cl in arms['int']:
+		fs = known(g, gx, cl)
+		pm_ = parent_map(gx)
+		par = pm_.get(id(cl))
+		wrapped = isinstance(par, ast.Call) and unparse(par.func) == 'int'
+		r2.check(wrapped, 'int-arm-body', (EVAL, cl.lineno), f'int,int arithmetic must be re-wrapped: int(self._calc(...)) — found `{unparse(par if par is not None else cl)[:80]}`', unparse(cl))
+		ints = sum(1 for t, p_ in fs if p_ and t.startswith('isinstance(') and t.endswith('int)'))
+		r2.check(ints >= 2 and has(fs, lambda t: t.endswith("== '/'"), False) and has(fs, lambda t: t.endswith('ArthmeticOps') and ' in ' in t, True), 'int-arm-test', (EVAL, cl.lineno), f'the int() arm must be reached only for two ints, an arithmetic operator and never for `/`: conditions {fs}')
+	for g, gx, cl in arms['bitwise']:
+		fs = known(g, gx, cl)
+		ints = sum(1 for t, p_ in fs if p_ and t.startswith('isinstance(') and t.endswith('int)'))
+		r2.check(ints >= 2 and has(fs, lambda t: t.endswith('ArthmeticOps') and ' in ' in t, False), 'bitwise-arm-test', (EVAL, cl.lineno), f'_bitwise must be reached only for two ints and a non-arithmetic operator: conditions {fs}')
+	for g, gx, cl in arms['cat']:
+		fs = known(g, gx, cl)
+		strs = sum(1 for t, p_ in fs if p_ and t.startswith('isinstance(') and t.endswith('str)'))
+		r2.check(strs >= 2 and has(fs, lambda t: t.endswith("== '+'"), True), 'str-arm-test', (EVAL, cl.lineno), f'the string arm must require two strings and `+`: conditions {fs}')
+	refuse = [n for g in members for n in nodes(X(g), ast.Assert) if isinstance(n.test, ast.Constant) and n.test.value is False]
+	r2.check(bool(refuse), 'else-refuses', ob.where, 'every other operand combination must be refused (assert False)')
+
+	def converts(t: ast.Try) -> bool:
+		return any('AssertionError' in handler_types(h) and any(raised_name(x) == 'Errors.OperationNotAllowed' for x in handler_raises(h)) for h in t.handlers)
+
+	for g in members:
+		for n in walk_no_nested(g.node):
+			if isinstance(n, ast.Assert) or (isinstance(n, ast.Call) and unparse(n.func) in ('self._calc', 'self._bitwise', 'self._cat')):
+				r2.check(guarded_through(members, g, n, converts), f'converted:{unparse(n)[:40]}', (EVAL, n.lineno), f'`{unparse(n)[:60]}` is not inside try..except AssertionError -> Errors.OperationNotAllowed')
 
 	# grammar exhaustiveness
 	r3 = rep.rule('C17/grammar-exhaustive', 'for each handled operator class, every token the grammar admits there is refused (not in AllowOps) or has an explicit branch; on_factor\'s default arm covers only identity tokens', floor=12)
@@ -172,7 +214,7 @@ def run(rep: Report, tier: str) -> None:
 			continue
 		h = c.method(f'on_{cls_name}')
 		if lv.kind == 'binary':
-			r3.check('self._op_bin_each(node, elements)' in unparse(h.node), f'{cls_name}:delegates', h.where, f'on_{cls_name} no longer folds with _op_bin_each')
+			r3.check(has_call(closure(h), '_op_bin_each'), f'{cls_name}:delegates', h.where, f'on_{cls_name} no longer folds with _op_bin_each')
 			for tok in lv.tokens:
 				key = f'{cls_name}:{tok}'
 				if tok not in allow:
@@ -201,28 +243,52 @@ def run(rep: Report, tier: str) -> None:
 					defaults = {unparse(v[1]) for v in explicit.values()}
 					r3.check(_op_class(tok, unary=True) == 'UAdd' and defaults == {'value'}, key, h.where, f'unary `{tok}` is allowed and falls into the default arm `{defaults}`, i.e. the operand is returned unchanged, but `{tok}x` is not the identity in Python')
 	term = c.method('on_terminal')
-	r3.check(term is not None and 'token in LiteralEvaluator.AllowOps' in unparse(term.node) and 'raise Errors.OperationNotAllowed' in unparse(term.node), 'terminal-gate', term.where if term else c.where, 'on_terminal no longer refuses operator tokens outside AllowOps')
+	if term is None:
+		raise AnalysisError('LiteralEvaluator.on_terminal vanished')
+	tx = X(term)
+	rets = [n for n in nodes(tx, ast.Return) if n.value is not None]
+	gate = lambda n: any(p_ and isinstance(a, ast.Compare) and isinstance(a.ops[0], ast.In) and unparse(a.comparators[0]).endswith('AllowOps') for a, p_ in atoms(tx, n))
+	r3.check(bool(rets) and all(gate(n) for n in rets) and any(isinstance(n, ast.Raise) for n in ast.walk(tx)), 'terminal-gate', term.where, 'on_terminal must return a token only when it is in AllowOps and refuse every other token')
 	fb = c.method('on_fallback')
 	r3.check(fb is not None and 'raise Errors.OperationNotAllowed' in unparse(fb.node), 'fallback-refuses', fb.where if fb else c.where, 'on_fallback no longer refuses unknown node kinds')
 
 	# literal decoding / casts
 	r4 = rep.rule('C17/literal-decoding', 'literal handlers and cast emulation call the Python builtin of the same name (int base 16 only under the 0x prefix)', floor=6)
 	oi = c.method('on_integer')
-	src = unparse(oi.node)
-	r4.check("tokens.startswith('0x')" in src and 'int(node.tokens, base=16)' in src and 'return int(node.tokens)' in src, 'integer', oi.where, f'on_integer decoding changed: {src[:160]}')
-	of = c.method('on_float')
-	r4.check('return float(node.tokens)' in unparse(of.node), 'float', of.where, 'on_float no longer returns float(node.tokens)')
-	fc = c.method('on_func_call')
-	chain, _ = [], None
-	cur = next((s for s in fc.node.body if isinstance(s, ast.If)), None)
-	while isinstance(cur, ast.If):
-		name = const_str(cur.test.comparators[0]) if isinstance(cur.test, ast.Compare) and unparse(cur.test.left) == 'org_calls' else None
-		calls = {attr_chain(n.func) for n in ast.walk(ast.Module(body=cur.body, type_ignores=[])) if isinstance(n, ast.Call) and isinstance(n.func, ast.Name) and n.func.id in ('int', 'float', 'str', 'bool')}
-		if name is None:
-			r4.undecided('cast:?', (EVAL, cur.lineno), f'cast branch test `{unparse(cur.test)}`')
+	ox = X(oi)
+	ints = [cl for cl in nodes(ox, ast.Call) if unparse(cl.func) == 'int']
+	if not ints:
+		r4.skip('integer', oi.where, 'on_integer no longer calls int(...)')
+	for cl in ints:
+		base = next((kw.value for kw in cl.keywords if kw.arg == 'base'), cl.args[1] if len(cl.args) > 1 else None)
+		fs = facts(ox, cl)
+		hexfact = [p_ for t, p_ in fs if ".startswith('0x')" in t or '.startswith("0x")' in t]
+		if base is not None:
+			try:
+				bv = ast.literal_eval(base)
+			except Exception:
+				bv = None
+			r4.check(bv == 16 and hexfact == [True] and unparse(cl.args[0]).endswith('tokens'), 'integer:hex', (EVAL, cl.lineno), f'`{unparse(cl)}` must decode base 16 exactly under the 0x prefix (conditions {fs})')
 		else:
-			r4.check(calls == {name}, f'cast:{name}', (EVAL, cur.lineno), f'the emulation of `{name}(...)` calls {sorted(calls)}')
-		cur = cur.orelse[0] if len(cur.orelse) == 1 and isinstance(cur.orelse[0], ast.If) else None
+			r4.check(hexfact in ([False], []) and unparse(cl.args[0]).endswith('tokens') and (hexfact == [False] or len(ints) == 1), 'integer:dec', (EVAL, cl.lineno), f'`{unparse(cl)}` must decode the literal text in base 10 when there is no 0x prefix (conditions {fs})')
+	of = c.method('on_float')
+	ofx = X(of)
+	r4.check(any(isinstance(n.value, ast.Call) and unparse(n.value.func) == 'float' and len(n.value.args) == 1 and unparse(n.value.args[0]).endswith('.tokens') for n in nodes(ofx, ast.Return) if n.value is not None), 'float', of.where, 'on_float no longer returns float(node.tokens)')
+	fc = c.method('on_func_call')
+	fcx = X(fc)
+	seen_casts = set()
+	for ret in nodes(fcx, ast.Return):
+		if ret.value is None:
+			continue
+		names = [const_str(a.comparators[0]) for a, p_ in atoms(fcx, ret) if p_ and isinstance(a, ast.Compare) and len(a.ops) == 1 and isinstance(a.ops[0], ast.Eq) and const_str(a.comparators[0]) in ('int', 'float', 'str', 'bool')]
+		if len(names) != 1:
+			continue
+		name = names[0]
+		builtin_calls = {n.func.id for n in ast.walk(ret.value) if isinstance(n, ast.Call) and isinstance(n.func, ast.Name) and n.func.id in ('int', 'float', 'str', 'bool')}
+		seen_casts.add(name)
+		r4.check(builtin_calls == {name}, f'cast:{name}', (EVAL, ret.lineno), f'the emulation of `{name}(...)` calls {sorted(builtin_calls)}', unparse(ret))
+	if not seen_casts:
+		r4.skip('cast:?', fc.where, 'on_func_call no longer has `return <builtin>(...)` arms under `<callee name> == \'<builtin>\'`')
 	r4.check('raise Errors.OperationNotAllowed' in unparse(fc.node), 'cast:other-refused', fc.where, 'calls other than the scalar casts are no longer refused')
 	hexpat = gm.term_patterns.get('HEX_NUMBER')
 	if hexpat is not None and 'i' in getattr(hexpat, 'flags', ()):
